@@ -109,6 +109,113 @@ Proof.
     + inversion S; subst. reflexivity.
 Qed.
 
+(* ------------------------------------------------------------ progress of a thread that saw its condition *)
+
+Ltac no_exp :=
+  let k := fresh "k" in let H := fresh "H" in
+  intros k H; unfold enabled_next in H; cbn [os_pt pc_code N.eqb Pos.eqb] in H; discriminate.
+
+Ltac split_ifs :=
+  repeat match goal with
+         | |- context [match ?k with KTop => _ | KRF _ _ => _ end] => destruct k
+         | |- context [let '(_, _) := splitN ?a ?b in _] => destruct (splitN a b)
+         | |- context [if ?b then _ else _] => destruct b eqn:?
+         end.
+
+Lemma step_pc_enabled s c :
+  let '(s', c', e) := step_pc s c in
+  forall k, enabled_next (mkOStep (pc_code c) e (snap_of s')) = Some k -> pc_code c' = k.
+Proof.
+  destruct c; cbn [step_pc]; unfold after_app, after_drop, do_take, do_take_all.
+  - (* PIdle *) no_exp.
+  - (* POpen *) no_exp.
+  - (* PClose *) no_exp.
+  - (* PForce *) no_exp.
+  - (* PStats *) no_exp.
+  - (* PSetDT *) split_ifs; no_exp.
+  - (* PWSel *) split_ifs; no_exp.
+  - (* PWChk *) destruct ((blen (buf s) <? smax s) || (smax s =? 0)) eqn:R; intros kk H;
+      unfold enabled_next in H; cbn [os_pt os_sn snap_of sn_max sn_len pc_code N.eqb Pos.eqb] in H;
+      rewrite orb_comm, R in H; [inversion H; reflexivity|discriminate].
+  - (* PWApp *) split_ifs; no_exp.
+  - (* PWDrop *) split_ifs; no_exp.
+  - (* PRSel *) split_ifs; no_exp.
+  - (* PRChk *) destruct (is_nil (buf s)) eqn:B.
+    + apply is_nil_true in B. destruct (closed s); intros k H; unfold enabled_next in H;
+        cbn [os_pt os_sn snap_of sn_len pc_code N.eqb Pos.eqb] in H; rewrite B in H; cbn in H; discriminate.
+    + intros k H; unfold enabled_next in H; cbn [os_pt os_sn snap_of sn_len pc_code N.eqb Pos.eqb] in H.
+      destruct (N.eqb (blen (buf s)) 0); inversion H; reflexivity.
+  - (* PRTake *) split_ifs; no_exp.
+  - (* PAMax *) no_exp.
+  - (* PASel *) split_ifs; no_exp.
+  - (* PAPoll *) unfold closed. destruct (deps s <? 1)%Z eqn:D; intros k H; unfold enabled_next in H;
+      cbn [os_pt os_sn snap_of sn_deps pc_code N.eqb Pos.eqb] in H; rewrite D in H;
+      [inversion H; reflexivity|discriminate].
+  - (* PATake *) no_exp.
+  - (* PTSel *) split_ifs; no_exp.
+  - (* PTChk *) destruct (is_nil (buf s)) eqn:B.
+    + apply is_nil_true in B. destruct (closed s); intros k H; unfold enabled_next in H;
+        cbn [os_pt os_sn snap_of sn_len pc_code N.eqb Pos.eqb] in H; rewrite B in H; cbn in H; discriminate.
+    + intros k H; unfold enabled_next in H; cbn [os_pt os_sn snap_of sn_len pc_code N.eqb Pos.eqb] in H.
+      destruct (N.eqb (blen (buf s)) 0); inversion H; reflexivity.
+  - (* PTTake *) split_ifs; no_exp.
+  - (* PFMax *) no_exp.
+  - (* PFSel *) split_ifs; no_exp.
+  - (* PGSel *) split_ifs; no_exp.
+  - (* PGPoll *) split_ifs; no_exp.
+Qed.
+
+Lemma step_thread_enabled s t :
+  let '(s', t', e) := step_thread s t in
+  forall k, enabled_next (mkOStep (pc_code (snd t)) e (snap_of s')) = Some k -> pc_code (snd t') = k.
+Proof.
+  destruct t as [prog c]. unfold step_thread. cbn [snd].
+  destruct c; try (pose proof (step_pc_enabled s) as G;
+    match goal with |- context [step_pc s ?c] => specialize (G c); destruct (step_pc s c) as [[s' c'] e]; exact G end).
+  destruct prog as [|o r]; [no_exp|]. destruct (begin_op o). no_exp.
+Qed.
+
+Lemma nth_set_same l : forall i t t', nth_thread i l = Some t -> nth_thread i (set_thread i t' l) = Some t'.
+Proof.
+  induction l as [|x l IH]; intros i t t' H; [destruct i; discriminate|].
+  destruct i; cbn [nth_thread set_thread] in *; [reflexivity|]. eapply IH. exact H.
+Qed.
+
+Lemma nth_set_other l : forall i j t', i <> j -> nth_thread j (set_thread i t' l) = nth_thread j l.
+Proof.
+  induction l as [|x l IH]; intros i j t' H; [destruct i; reflexivity|].
+  destruct i, j; cbn [nth_thread set_thread]; try reflexivity; [congruence|]. apply IH. congruence.
+Qed.
+
+(* every expectation recorded so far is the yield point the thread is parked at *)
+Definition exp_inv (exp : list (nat * option N)) (l : list thread) : Prop :=
+  forall i k, lookup_exp i exp = Some k -> exists t, nth_thread i l = Some t /\ pc_code (snd t) = k.
+
+Lemma exec_progress sched : forall y os yf exp,
+  exec y sched = (os, yf) -> exp_inv exp (thr y) -> progress_ok exp sched os = true.
+Proof.
+  induction sched as [|i rest IH]; intros y os yf exp E X; cbn [exec] in E.
+  - inversion E; reflexivity.
+  - destruct (sys_step y i) as [y' o] eqn:S. destruct (exec y' rest) as [os' yf'] eqn:E'.
+    inversion E; subst. clear E. cbn [progress_ok].
+    unfold sys_step in S. destruct (nth_thread i (thr y)) as [t|] eqn:N.
+    + pose proof (step_thread_enabled (sh y) t) as G.
+      destruct (step_thread (sh y) t) as [[s' t'] e]. inversion S; subst. clear S.
+      apply andb_true_iff; split.
+      * destruct (lookup_exp i exp) as [k|] eqn:L; [|reflexivity].
+        destruct (X _ _ L) as (t0 & N0 & K). rewrite N in N0. inversion N0; subst.
+        cbn [os_pt]. apply N.eqb_refl.
+      * apply (IH _ _ _ _ E'). cbn [thr]. intros j k L. cbn [lookup_exp] in L.
+        destruct (Nat.eqb_spec j i) as [J|J].
+        -- subst j. exists t'. split; [eapply nth_set_same; exact N|]. apply G. exact L.
+        -- rewrite nth_set_other by congruence. apply X. exact L.
+    + inversion S; subst. clear S. apply andb_true_iff; split.
+      * destruct (lookup_exp i exp) as [k|] eqn:L; [|reflexivity].
+        destruct (X _ _ L) as (t0 & N0 & _). rewrite N in N0. discriminate.
+      * apply (IH _ _ _ _ E'). intros j k L. cbn [lookup_exp] in L.
+        destruct (Nat.eqb_spec j i) as [J|J]; [cbn in L; discriminate|]. apply X. exact L.
+Qed.
+
 (* ------------------------------------------------------------ headline *)
 
 (* For every buffer limit, every set of thread programs and every schedule, the
@@ -122,12 +229,13 @@ Proof.
   unfold fifo_ok. unfold run_ctl in *.
   destruct (exec (init_sys max progs) sched) as [os yf] eqn:E. cbn [co_steps co_buf] in *.
   destruct F as [F1 F2].
-  apply andb_true_iff; split; [apply andb_true_iff; split|].
+  apply andb_true_iff; split; [apply andb_true_iff; split; [apply andb_true_iff; split|]|].
   - destruct (closed_seen os).
     + apply is_subseq_complete. exact F2.
     + rewrite (F1 eq_refl). apply bytes_eqb_refl.
   - exact (exec_counters _ _ _ _ false E (inv_init max) (fun _ => eq_refl)).
   - eapply exec_steps_ok. exact E.
+  - apply (exec_progress _ _ _ _ _ E). intros i k L. discriminate.
 Qed.
 
 (* ------------------------------------------------------------ end of stream *)
